@@ -166,8 +166,8 @@ CATALOGUE = [
      "                if len(data) == 0:\n                    self.redirector.remove_fd(fd)\n                else:",
      "                if len(data) == 0:\n                    pass\n                else:"),
     ('C17-b', 'C17', W,
-     "        if self.stream_redirector:\n            self.stream_redirector.remove_redirections(process)\n\n        timeout = 0.001",
-     "        timeout = 0.001"),
+     "            self.stream_redirector.flush_redirections(process)\n            self.stream_redirector.remove_redirections(process)\n\n        timeout = 0.001",
+     "            self.stream_redirector.flush_redirections(process)\n\n        timeout = 0.001"),
     ('C18-a', 'C18', W,
      "        is_sigkill = hasattr(signal, 'SIGKILL') and signum == signal.SIGKILL\n        if pid in self.processes:\n            process = self.processes[pid]",
      "        is_sigkill = hasattr(signal, 'SIGKILL') and signum == signal.SIGKILL\n        if pid in self.processes or (self.arbiter is not None and any(\n                pid in w.processes for w in self.arbiter.watchers)):\n            process = [w.processes[pid] for w in self.arbiter.watchers\n                       if pid in w.processes][0]"),
